@@ -24,6 +24,7 @@ REPS = {
     'List': ['(l)', '(l (i 1))', '(l (i 1) (p (s 5) (i 2)) (cl 97))', '(l (p (s 5) (i 1)) (p (s 11) (i 2)))'],
     'Expression': ['(e 1)'],
     'External': ['(x 3)'],
+    'Custom': ['(cu)'],        # a host value (GarnishDataType::Custom): declared after False in the enum
 }
 TYPES = list(REPS.keys())
 BINARY = ['Add', 'Subtract', 'Multiply', 'Divide', 'IntegerDivide', 'Power', 'Remainder', 'BitwiseAnd', 'BitwiseOr', 'BitwiseXor',
